@@ -315,6 +315,24 @@ func checkC06(e *Env) {
 		}
 	})
 
+	// histories in one process: failing and succeeding NewMnemonic calls among calls of the
+	// other functions; every NewMnemonic on a scripted source is judged as above
+	histCalls := e.runHistories(drv, "C06", e.pick(24, 300), 4, func(ops []plan.Op, res []plan.Res) {
+		for i := range res {
+			op := &ops[i]
+			if op.Fn != "new" || op.Src == nil || op.L < 0 || op.L >= ref.NLang {
+				continue
+			}
+			if res[i].Panic != "" {
+				e.Violate(&Violation{What: "NewMnemonic panicked in a sequence of calls: " + oneLine(res[i].Panic, 300), Ops: ops[:i+1], Observed: res[i], Detail: historyNote})
+				return
+			}
+			if why := e.judgeAgainstRef(op, &res[i], e.refEval(op)); why != "" {
+				e.Violate(&Violation{What: fmt.Sprintf("after earlier calls in the same process NewMnemonic(%d, %s) on a scripted source: %s", op.N, ref.Names[op.L], why), Ops: ops[:i+1], Observed: res[i], Detail: historyNote})
+				return
+			}
+		}
+	})
 	wantMatrix := 0
 	for _, n := range ref.WordCounts {
 		need := n + n/3
@@ -326,6 +344,7 @@ func checkC06(e *Env) {
 	e.WriteEvidence("fault_enumeration", map[string]any{
 		"evaluations":                   stats.Ops,
 		"distinct_nontrivial":           dist.Len(),
+		"calls_inside_histories":        histCalls,
 		"rule":                          "a case is a scripted randomness source (bytes, per-read delivery sizes, failure point, failure kind, error alone or alongside the last bytes) x word count x language; enumerated: every failure point k in 0..4n/3-1 for n in {12,15,18,21,24} x 13 failure kinds (io.EOF, io.ErrUnexpectedEOF, a custom error, EINTR, EAGAIN, *os.PathError, Temporary()/Timeout() errors, os.ErrDeadlineExceeded, io.ErrNoProgress, io.ErrShortBuffer, io.ErrClosedPipe, wrapped EOF; sticky: the source keeps failing) x {alone, alongside} plus plain end of data, each under several fragmentations (one read, 1-byte reads, halves, (k-1)+1, 1+(k-1), zero-length reads interleaved, seeded random compositions); successes under the same fragmentations incl. zero-leading data; all cases non-trivial (the result is compared with the reference encoding of the delivered prefix, or must be (\"\", non-nil error)); distinct by (data, script, n, language)",
 		"samples":                       smp.List(),
 		"failure_matrix_cells_covered":  matrix.Len(),
